@@ -351,6 +351,12 @@ def strip(t, depth=0):
         if inner[0] == "call" and isinstance(inner[1], str) and inner[1].endswith("::branch") and "Try" in inner[1] or \
                 (inner[0] == "call" and inner[1] == "std::ops::Try::branch"):
             src = strip(inner[2][0], depth + 1)
+            # the success value of `x.map_err(f)?` is the success value of `x?`
+            for _ in range(3):
+                if src[0] == "call" and isinstance(src[1], str) and src[1].endswith("::map_err") and "Result" in src[1] and len(src[2]) == 2:
+                    src = strip(src[2][0], depth + 1)
+                else:
+                    break
             known = _payload_of_built("?", src, depth)
             return known if known is not None else ("payload", "?", src)
         if t[1] in ("Ok", "Some", "Continue"):
